@@ -499,7 +499,14 @@ def execute(scn, ctx):
             t = t.swap()
         return t
 
+    held = []  # (step, description, value, canon at return time): results handed to the caller earlier
+
     def check_everything_unchanged(where, tags):
+        for h in list(held):
+            if M.canon(h[2]) != h[3]:
+                viol.append({"invariant": "C10.result_stable", "tags": tags,
+                             "detail": f"the result returned by {h[1]} at op {h[0]} was changed afterwards {where} (a later call wrote into it)"})
+                held.remove(h)
         for i, o in enumerate(pool):
             if M.fingerprint(o) != pool_fp[i]:
                 viol.append({"invariant": "C10.object_unchanged", "detail": f"pool[{i}] ({type(o).__name__}) changed {where}", "tags": tags})
@@ -714,6 +721,10 @@ def execute(scn, ctx):
                     probe("elementwise_checked")
                 except Exception as e:  # noqa: BLE001
                     viol.append({"invariant": "C10.elementwise", "detail": f"metric of a single stacked matrix raised {type(e).__name__} [op {step}]", "tags": tags})
+        if res["ok"]:
+            held.append((step, f"{k}({tags['name']})", res["value"], M.canon(res["value"])))
+            if len(held) > 5:
+                held.pop(0)
         trace.append([step, op.get("client"), k, tags["name"], oi, sorted(set(fired_kinds)), outcome,
                       M.digest(M.canon(res["value"]))[:12] if res["ok"] else None])
         sig.append(f"{op.get('client')}|{kind}|{k}|{tags['name']}|{np.shape(x) if x is not None else ''}|{','.join(sorted(set(fired_kinds)))}|{outcome}")
